@@ -27,6 +27,7 @@ type FakeTty struct {
 	cb       func()
 	LogReads bool
 	WsErr    error // if set, WindowSize fails
+	FailStart  bool   // the next Start fails (one shot): the terminal is temporarily unavailable
 	OnUnnotify func() // if set: called once, from the next NotifyResize(nil), outside the tty's own lock
 	LogWS    bool  // log WindowSize calls, and Read calls entered while the tty is stopped (engine modes, C04)
 }
@@ -42,6 +43,11 @@ func (t *FakeTty) log(s string) { t.Log = append(t.Log, s) }
 func (t *FakeTty) Start() error {
 	t.mu.Lock()
 	defer t.mu.Unlock()
+	if t.FailStart {
+		t.FailStart = false
+		t.log("Start(failed)")
+		return errors.New("tty: temporarily unavailable")
+	}
 	t.log("Start")
 	t.stopped, t.draining = false, false
 	return nil
